@@ -498,7 +498,8 @@ def render_def(prog, i, skip_names=()):
                   "    def wrapper(%s, *rest, **kw):" % wp, "        return fn(%s, *rest, **kw)" % wp, "    return wrapper", "",
                   "@deco_%s" % nd["name"]]
     if nd.get("prev"):  # (the earlier definition comes before the decorators of the current one)
-        L[0:0] = ["def %s(x):" % nd["name"], "    REC.hit(%r, x)" % (nd["name"] + "_old"), "    return x * 2 + %d" % nd["prev"]["const"], "",
+        L[0:0] = (["@m.memento_function"] if nd["kind"] == "memento" else []) + [  # (an earlier edition of a memento function is one too)
+                  "def %s(x):" % nd["name"], "    REC.hit(%r, x)" % (nd["name"] + "_old"), "    return x * 2 + %d" % nd["prev"]["const"], "",
                   "%s_old = %s" % (nd["name"], nd["name"]), ""]
     L.append("def %s(%s):" % (nd["name"], ", ".join(ps)))
     L.append("    REC.hit(%r, %s)" % (nd["name"], ", ".join(names)))
